@@ -378,7 +378,7 @@ CASES["C12"] = [
     ("copy-out: output = not an input", "mutant", CASTSF, "            if isinstance(use_op, linalg.GenericOp):\n                is_output = op.results[0] in use_op.outputs", "            if isinstance(use_op, linalg.GenericOp):\n                is_output = op.results[0] not in use_op.inputs", ["C12.copy-out"]),
     ("copy-in: streaming regions always read", "mutant", CASTSF, "            elif isinstance(use_op, dart.StreamingRegionOpBase):\n                is_input = op.results[0] in use_op.inputs", "            elif isinstance(use_op, dart.StreamingRegionOpBase):\n                is_input = op.results[0] not in use_op.outputs", ["C12.copy-in"]),
     ("copy-out: break removed", "mutant", CASTSF, "                rewriter.insert_op(copy_op, InsertPoint.after(use_op))\n                break\n", "                rewriter.insert_op(copy_op, InsertPoint.after(use_op))\n", ["C12.copy-out"]),
-    ("chain: layout casts not followed in the pattern", "mutant", CASTSF, "        while isinstance(source_op.source, OpResult) and isinstance(\n            source_op.source.op, MemorySpaceCastOp | LayoutCast\n        ):", "        while isinstance(source_op.source, OpResult) and isinstance(\n            source_op.source.op, MemorySpaceCastOp\n        ):", ["C12.chain"]),
+    ("chain: layout casts not followed in the pattern", "mutant", CASTSF, "            and isinstance(source_op.source.op, MemorySpaceCastOp | LayoutCast)\n            and source_op.source.uses.get_length() == 1\n        ):", "            and isinstance(source_op.source.op, MemorySpaceCastOp)\n            and source_op.source.uses.get_length() == 1\n        ):", ["C12.chain"]),
     ("l1: operands in L1 selected", "mutant", SPACEF, "if isinstance(memref_type := x.type, builtin.MemRefType) and memref_type.memory_space != L1.attribute", "if isinstance(memref_type := x.type, builtin.MemRefType) and memref_type.memory_space == L1.attribute", ["C12.l1"]),
     ("l1: any cast reused", "mutant", SPACEF, "                    and use_type.memory_space == L1.attribute\n", "", ["C12.l1"]),
     ("boundary: every memref gets L3", "mutant", SPACEF, "                if isinstance(t.memory_space, builtin.NoneAttr):\n                    return builtin.MemRefType(", "                if True:\n                    return builtin.MemRefType(", ["C12.boundary"]),
